@@ -10,6 +10,8 @@ pub fn instances(tier: &str) -> Vec<String> {
         v.push(format!("det:n={}", n));
         v.push(format!("inv:n={}", n));
     }
+    for n in 1..=2 { v.push(format!("cdet:n={}", n)); }
+    v.push("cinv:n=1".into()); // (the two-sided identity for a 2x2 complex inverse stays undecided: nested complex quotients)
     if tier == "thorough" {
         v.push("det:n=4".into());
     }
@@ -28,6 +30,7 @@ fn unchanged(tag: &str, m: &Matrix<Sym>, a: &[Vec<Sym>]) {
 pub fn body(inst: &str) {
     let (kind, p) = parse_inst(inst);
     let n = geti(&p, "n");
+    if kind == "cdet" || kind == "cinv" { return complex_body(&kind, n); }
     let a = var_grid("a", n, n);
     let d_ref = det(&a);
     match kind.as_str() {
@@ -67,4 +70,41 @@ pub fn body(inst: &str) {
         }
         _ => panic!("unknown C02 instance"),
     }
+}
+
+/// Complex<f64> elements (derived crate)
+fn complex_body(kind: &str, n: usize) {
+    use super::c01::cplx::{cdet, cgrid, cmatrix};
+    use ohsl_sym::Cmplx;
+    let z = || Sym::lit(0.0);
+    let a = cgrid("a", n);
+    let d_ref = cdet(&a);
+    let m = cmatrix(&a);
+    if kind == "cdet" {
+        match catch(|| m.determinant()) {
+            Ok(d) => { prove("complex determinant equals the cofactor determinant (real part)", eq(d.real, d_ref.real)); prove("complex determinant equals the cofactor determinant (imaginary part)", eq(d.imag, d_ref.imag)); }
+            Err(s) => must_not_stop("determinant of any complex square matrix must be returned", &s),
+        }
+    } else {
+        assume(B::or(vec![ne(d_ref.real, z()), ne(d_ref.imag, z())]));
+        match catch(|| m.inverse()) {
+            Ok(inv) => {
+                let ok = inv.rows() == n && inv.cols() == n;
+                prove("complex inverse has the shape of the operand", if ok { B::True } else { B::False });
+                if ok { for i in 0..n { for j in 0..n {
+                    let mut l = Cmplx::new(z(), z());
+                    let mut r = Cmplx::new(z(), z());
+                    for k in 0..n { l = l + a[i][k] * inv[(k, j)]; r = r + inv[(i, k)] * a[k][j]; }
+                    let id = if i == j { Sym::lit(1.0) } else { z() };
+                    prove(&format!("complex (A*inv)[{},{}] = I (real part)", i, j), eq(l.real, id));
+                    prove(&format!("complex (A*inv)[{},{}] = I (imaginary part)", i, j), eq(l.imag, z()));
+                    prove(&format!("complex (inv*A)[{},{}] = I (real part)", i, j), eq(r.real, id));
+                    prove(&format!("complex (inv*A)[{},{}] = I (imaginary part)", i, j), eq(r.imag, z()));
+                } } }
+            }
+            Err(s) => must_not_stop("inverse of a nonsingular complex matrix must be returned", &s),
+        }
+    }
+    let same = m.rows() == n && (0..n).all(|i| (0..n).all(|j| m[(i, j)].real.same(a[i][j].real) && m[(i, j)].imag.same(a[i][j].imag)));
+    prove("complex operand is left unchanged", if same { B::True } else { B::False });
 }
